@@ -44,6 +44,8 @@ def make(cls, beh, variant=""):
         img = MaskedImage(_ramp(sh, nch).astype(dt), mask=mask)
     else:
         img = BooleanImage(mask.copy())
+    # (a group without points, attached FIRST: legal, and it must not get in the way of the groups listed after it)
+    img.landmarks["empty"] = PointCloud(np.zeros((0, 2)))
     img.landmarks["lm"] = PointCloud(L.pts(beh["lms0"]))
     # the same whole-pixel annotations stored twice, as int64 and as float64 points: the number type of a landmark group must not
     # decide where it goes
@@ -147,6 +149,7 @@ def replay_one(cls, beh, variant=""):
         if op == "warp_sym":
             # (the twin whole-number groups may lie outside the domain of a piecewise-affine / spline warp: not part of that case)
             plain = img.copy()
+            del plain.landmarks["empty"]
             del plain.landmarks["ilm"]
             del plain.landmarks["flm"]
             return _warp_sym(cls, plain, args[0], tag, ctol)
@@ -207,6 +210,8 @@ def replay_one(cls, beh, variant=""):
         got_lm = res.landmarks["lm"].points
         if got_lm.shape != want_lm.shape or not L.close(got_lm, want_lm, 1e-9):
             return tag + ": landmarks not moved with the pixels (max diff %.4g)" % L.maxdiff(got_lm, want_lm)
+        if list(res.landmarks.group_labels) != list(img.landmarks.group_labels) or res.landmarks["empty"].points.shape != (0, 2):
+            return tag + ": the result does not carry the same landmark groups in the same order (an empty group included)"
         gi, gf = np.asarray(res.landmarks["ilm"].points, dtype=float), np.asarray(res.landmarks["flm"].points, dtype=float)
         if gi.shape != gf.shape or not L.close(gi, gf, 1e-9):
             return tag + ": a landmark group stored as whole numbers (int64) is not moved like the same points stored as floats (max diff %.4g)" % L.maxdiff(gi, gf)
